@@ -714,6 +714,13 @@ func (i *Interpreter) ProcessDeliver() error {
 	} else if i.ctx.BackendResponse != nil {
 		i.ctx.Response = i.ctx.BackendResponse.Clone()
 	}
+	// e.g. return(deliver_stale) in vcl_miss comes here without any object, the simulator has no stale object
+	if i.ctx.Response == nil {
+		return errors.WithStack(exception.Runtime(
+			nil,
+			"No object to deliver in DELIVER, neither cached object nor backend response exists",
+		))
+	}
 
 	// Add Fastly related server info but values are falco's one.
 	// Note that these headers could be removed in vcl_deliver subroutine
